@@ -53,6 +53,8 @@ Never == -1                     \* "zero time" of a validator status that was ne
 Max2(a, b) == IF a >= b THEN a ELSE b
 Abs(x)     == IF x < 0 THEN -x ELSE x
 Range(s)   == {s[i] : i \in 1..Len(s)}
+RECURSIVE Perms(_)
+Perms(S) == IF S = {} THEN {<<>>} ELSE UNION {{<<x>> \o p : p \in Perms(S \ {x})} : x \in S}
 
 -----------------------------------------------------------------------------
 (***************************************************************************)
@@ -162,6 +164,94 @@ CheckMiss(interval, uT, uH, vp, since, tnow, hh, grace) ==
         lt  == IF vp.st # "none" THEN Max2(lt0, vp.ts + interval) ELSE lt0
         lb  == IF vp.st # "none" THEN Max2(lb0, vp.bh + interval \div MaxGuaranteeBlockTime) ELSE lb0
     IN lt < tnow /\ lb < hh
+
+-----------------------------------------------------------------------------
+(***************************************************************************)
+(* Properties of the pure part (C06).  TLC checks them on every enumerated *)
+(* input (FeedsPrice_MC, pure facets) and asserts them on every input that *)
+(* is driven through the real code (FeedsPrice_Trace, Calc events).        *)
+(***************************************************************************)
+AvailIdx(s)    == {i \in 1..Len(s) : s[i].st = "avail"}
+AvailPrices(s) == {s[i].price : i \in AvailIdx(s)}
+ScalePw(s, k)  == [i \in 1..Len(s) |-> [s[i] EXCEPT !.pw = @ * k]]
+Permute(s, p)  == [i \in 1..Len(s) |-> s[p[i]]]
+
+\* the result is one of the available input prices (hence within [min, max]); error iff there is none
+PureRangeOf(infos) ==
+    LET m == Median(infos)  ps == AvailPrices(infos) IN
+    /\ m.ok <=> ps # {}
+    /\ m.ok => /\ m.price \in ps
+               /\ \A q \in ps : (\A r \in ps : q <= r) => q <= m.price
+               /\ \A q \in ps : (\A r \in ps : q >= r) => q >= m.price
+
+\* the whole rule is homogeneous in the powers (no division anywhere): scaling changes nothing
+PureScaleOf(infos) ==
+    LET P == Powers(infos)  m == Median(infos) IN
+    \A k \in {3, 1000} :
+        /\ Median(ScalePw(infos, k)) = m
+        /\ \A q \in 0..(P.total + 1) :
+              PriceStatus(k * P.total, k * P.avail, k * P.unsupp, k * q) = PriceStatus(P.total, P.avail, P.unsupp, q)
+
+\* the order of the entries matters only between available entries with the same (timestamp, power)
+TieFree(s) == \A i, j \in AvailIdx(s) : (i # j /\ s[i].ts = s[j].ts /\ s[i].pw = s[j].pw) => s[i].price = s[j].price
+\* all permutations up to 3 entries; reversal, rotation and one swap beyond (cost)
+OrderProbes(n) == IF n <= 3 THEN Perms(1..n)
+                  ELSE {[i \in 1..n |-> n + 1 - i], [i \in 1..n |-> (i % n) + 1], [i \in 1..n |-> IF i = 1 THEN 2 ELSE IF i = 2 THEN 1 ELSE i]}
+PureOrderOf(infos) ==
+    LET P == Powers(infos)  m == Median(infos)  tf == TieFree(infos) IN
+    \A p \in OrderProbes(Len(infos)) :
+        /\ Powers(Permute(infos, p)) = P
+        /\ tf => Median(Permute(infos, p)) = m
+
+\* AVAILABLE / UNKNOWN_SIGNAL_ID / NOT_READY exactly by the rule; the error return needs quorum 0 and no input
+PureStatusOf(infos) ==
+    LET P == Powers(infos)  m == Median(infos) IN
+    /\ P.total = P.avail + P.unavail + P.unsupp
+    /\ \A q \in 0..(P.total + 1) :
+        LET st == PriceStatus(P.total, P.avail, P.unsupp, q) IN
+        /\ (st = "UNKNOWN_SIGNAL_ID") <=> (2 * P.unsupp > P.total)
+        /\ (st = "AVAILABLE") <=> (P.total >= q /\ 2 * P.avail >= P.total /\ ~(2 * P.unsupp > P.total))
+        /\ (st \notin {"UNKNOWN_SIGNAL_ID", "AVAILABLE"}) <=> (st = "NOT_READY")
+        /\ (st = "AVAILABLE" /\ ~m.ok) <=> (infos = <<>> /\ q = 0)
+    /\ \A q \in {0, P.total, P.total + 1} :
+        LET st == PriceStatus(P.total, P.avail, P.unsupp, q)  r == CalcPrice(infos, q) IN
+        /\ r.status = (IF st = "AVAILABLE" /\ ~m.ok THEN "ERROR" ELSE st)
+        /\ r.price = (IF r.status = "AVAILABLE" THEN m.price ELSE 0)
+
+\* independent (declarative) reading of the two loops, must agree with the transcription:
+\*  - the k-th sorted entry occupies [32*prefix(k-1), 32*prefix(k)) of the scaled power line; its weight is the
+\*    multiplier-weighted overlap with the sections [0,1T) [1T,3T) [3T,7T) [7T,15T) [15T,32T);
+\*  - the median is the least price P with 2 * (weight of prices <= P) >= total weight.
+Min2(a, b) == IF a <= b THEN a ELSE b
+Overlap(a, b, lo, hi) == Max2(0, Min2(b, hi) - Max2(a, lo))
+Lim(total) == <<0, total * 1, total * 3, total * 7, total * 15, total * 32>>
+AltWeight(a, b, total) ==
+    LET L == Lim(total) IN
+    Mult[1] * Overlap(a, b, L[1], L[2]) + Mult[2] * Overlap(a, b, L[2], L[3]) + Mult[3] * Overlap(a, b, L[3], L[4])
+  + Mult[4] * Overlap(a, b, L[4], L[5]) + Mult[5] * Overlap(a, b, L[5], L[6])
+RECURSIVE Prefix(_, _)
+Prefix(s, k) == IF k = 0 THEN 0 ELSE s[k].pw + Prefix(s, k - 1)
+AltWeights(s) ==
+    LET valid  == OnlySt(s, "avail")
+        total  == SumPw(valid)
+        sorted == StableSort(valid, NewerBigger)
+    IN [k \in 1..Len(sorted) |-> [w |-> AltWeight(Scale * Prefix(sorted, k - 1), Scale * Prefix(sorted, k), total),
+                                  price |-> sorted[k].price]]
+RECURSIVE SumWUpTo(_, _, _)
+SumWUpTo(wps, k, P) == IF k = 0 THEN 0 ELSE (IF wps[k].price <= P THEN wps[k].w ELSE 0) + SumWUpTo(wps, k - 1, P)
+AltMedian(wps) ==
+    LET W  == SumW(wps)
+        ok == {wps[i].price : i \in {j \in 1..Len(wps) : 2 * SumWUpTo(wps, Len(wps), wps[j].price) >= W}}
+    IN IF ok = {} THEN [ok |-> FALSE, price |-> 0]
+       ELSE [ok |-> TRUE, price |-> CHOOSE p \in ok : \A q \in ok : p <= q]
+PureAltOf(infos) ==
+    LET wps == WeightedPrices(infos) IN
+    /\ wps = AltWeights(infos)
+    /\ Median(infos) = AltMedian(wps)
+    /\ SumW(wps) = 478 * Powers(infos).avail       \* 1*60 + 2*40 + 4*20 + 8*11 + 17*10: no power lost or counted twice
+    /\ \A i \in 1..Len(wps) : wps[i].w >= 0
+
+PureAll(infos) == PureRangeOf(infos) /\ PureScaleOf(infos) /\ PureOrderOf(infos) /\ PureStatusOf(infos) /\ PureAltOf(infos)
 
 -----------------------------------------------------------------------------
 (***************************************************************************)
@@ -291,7 +381,9 @@ InfosOf(lst, s, interval) ==
     ELSE (IF HavePrice(interval, vprice[Head(lst)][s], now) THEN <<EntryOf(Head(lst), s)>> ELSE <<>>)
          \o InfosOf(Tail(lst), s, interval)
 
-EndBlock(dt, nf, ord) ==
+\* `fails` says whether CalculatePrices returns its error; EndBlock (below) computes it, a trace check that does not
+\* own the price computation passes the observed outcome instead.
+EndBlockCore(dt, nf, ord, failsOf(_)) ==
     LET isUpd  == h % params.upd = 0
         feeds1 == IF isUpd THEN nf ELSE feeds
         uT     == IF isUpd THEN now ELSE updT
@@ -306,7 +398,7 @@ EndBlock(dt, nf, ord) ==
     IN
     /\ IsOrder(ord)
     /\ nf \in [Sig -> Nat]
-    /\ IF \E s \in cur1 : res(s).status = "ERROR"
+    /\ IF failsOf(\E s \in cur1 : res(s).status = "ERROR")
        THEN \* CalculatePrices returns an error: the block cannot be produced, nothing is committed
             /\ out' = "err"
             /\ UNCHANGED <<h, now, params, feeds, updT, updH, vprice, price, vstat, deactEv, bonded, jailed, power>>
@@ -320,14 +412,14 @@ EndBlock(dt, nf, ord) ==
             /\ out' = "ok"
             /\ UNCHANGED <<params, vprice, jailed, power>>
 
+Same(b) == b
+EndBlock(dt, nf, ord) == EndBlockCore(dt, nf, ord, Same)
+
 (***************************************************************************)
 (* Next-state relation used by MC and GEN                                  *)
 (***************************************************************************)
 StPrice == {[st |-> "avail", price |-> p] : p \in PriceSet} \cup {[st |-> st, price |-> 0] : st \in StatusSet \ {"avail"}}
 Msgs    == UNION {[S -> StPrice] : S \in SUBSET Sig}
-
-RECURSIVE Perms(_)
-Perms(S) == IF S = {} THEN {<<>>} ELSE UNION {{<<x>> \o p : p \in Perms(S \ {x})} : x \in S}
 
 Next ==
     \/ \E a \in Addr, toff \in ToffSet, m \in Msgs : Submit(a, toff, m, "wf")
@@ -341,30 +433,28 @@ Spec == InitSys /\ [][Next]_vars
 -----------------------------------------------------------------------------
 (* Invariants *)
 
-TypeOK ==
-    /\ h \in Nat /\ now \in Nat
-    /\ \A s \in Sig : /\ feeds[s] \in Nat
-                      /\ price[s].status \in {"NONE", "AVAILABLE", "NOT_READY", "UNKNOWN_SIGNAL_ID"}
+\* price store (C06): only current feeds have a stored price, written at an end-block since the last list update
+InvPrice ==
+    /\ \A s \in Sig : /\ price[s].status \in {"NONE", "AVAILABLE", "NOT_READY", "UNKNOWN_SIGNAL_ID"}
                       /\ (price[s].status # "AVAILABLE" => price[s].price = 0)
+                      /\ (price[s].status # "NONE" => feeds[s] > 0)
+                      /\ (price[s].status # "NONE" => price[s].ts <= now /\ price[s].ts >= updT)
+    /\ out \in {"init", "ok", "rej", "err"}
+
+\* validator prices and statuses (C15): well-formed, never from the future; an active validator has activated
+InvStatus ==
+    /\ h \in Nat /\ now \in Nat /\ updT <= now /\ updH <= h
     /\ \A v \in Val : \A s \in Sig :
           /\ vprice[v][s].st \in {"none", "avail", "unavail", "unsupp"}
           /\ (vprice[v][s].st # "avail" => vprice[v][s].price = 0)
           /\ (vprice[v][s].st # "none" => vprice[v][s].ts <= now /\ vprice[v][s].bh <= h)
-    /\ out \in {"init", "ok", "rej", "err"}
-    /\ updT <= now /\ updH <= h
+    /\ \A a \in Addr : (vstat[a].active => vstat[a].since # Never) /\ vstat[a].since <= now /\ deactEv[a] >= 0
 
-\* only current feeds have a stored price; it was written no later than now
-PriceStoreSound ==
-    \A s \in Sig : /\ (price[s].status # "NONE" => feeds[s] > 0)
-                   /\ (price[s].status # "NONE" => price[s].ts <= now /\ price[s].ts >= updT)
+\* the end-blocker can fail only when the power quorum is 0: price_quorum = 0 (lead of C02; such inputs are tagged by
+\* the driver) or nothing bonded at all
+ErrOnlyQuorum0 == out = "err" => BondedTotal * params.qn = 0
 
-\* only validators hold prices; strangers are never touched by the feeds module
-StatusSound == \A a \in Addr : (vstat[a].active => vstat[a].since # Never) /\ deactEv[a] >= 0
-
-\* the end-blocker can fail only for the degenerate quorum 0 (lead of C02; inputs tagged by the driver)
-ErrOnlyQuorum0 == out = "err" => params.qn = 0
-
-Inv == TypeOK /\ PriceStoreSound /\ StatusSound
+Inv == InvPrice /\ InvStatus
 
 (* Action properties: XxxA is the action-level formula, Xxx the temporal property *)
 
